@@ -134,10 +134,16 @@ def eval_cases(terms: list[str], tag: str, mod: str = "Corr", casety: str = "cas
     if not files:
         return 0, [], []
     script = d / "run.sh"
-    script.write_text("#!/bin/sh\ncd \"$(dirname \"$1\")\" && timeout %d coqc -Q %s Verif -w -cast-in-pattern \"$1\" > \"$1.out\" 2>&1\n" % (timeout, COQ))
+    script.write_text("#!/bin/sh\ncd \"$(dirname \"$1\")\" && timeout %d coqc -noglob -Q %s Verif -w -cast-in-pattern \"$1\" > \"$1.out\" 2>&1\n" % (timeout, COQ))
     script.chmod(0o755)
     p = subprocess.run(["xargs", "-P", str(NCPU), "-n", "1", str(script)], input="\n".join(str(f) for _, f in files),
                        text=True, capture_output=True)
+    # keep the case sources and outputs (replay), drop compiled artefacts
+    for junk in list(d.glob("*.vo")) + list(d.glob("*.vok")) + list(d.glob("*.vos")) + list(d.glob("*.glob")) + list(d.glob(".*.aux")):
+        try:
+            junk.unlink()
+        except OSError:
+            pass
     total, bad, errors = 0, [], []
     for k, f in files:
         out = _clean(Path(str(f) + ".out").read_text())
